@@ -1,10 +1,18 @@
 """C08 - exclusions remove exactly the matching files/directories, nothing else.
 
-  C08.R1  glob -> regex: the raw pattern reaches the result only through re.escape of the text between at most one leading and one
-          trailing marker; '.*' is prepended iff it started with '*', appended iff it ended with '*', '$' appended iff not
-  C08.R2  matching is `re.match` (anchored at the start) of every compiled pattern against the path string
-  C08.R3  exclusion dominates registration, descent and parsing; the predicate sees the path itself
-  C08.R4  option plumbing: every glob is converted; no None reaches a consumer that iterates the patterns
+  C08.R1  glob -> regex: for every glob the converter yields  ['.*' iff leading *] + re.escape(text between at most one leading and one
+          trailing *) + ['.*' iff trailing * else '$']  (proved by symbolic evaluation per glob shape, rules/c08_glob.py); the raw
+          pattern text reaches the result only through re.escape (tag flow)
+  C08.R2  matching: excluded iff re.match (anchored at the start only) of *some* configured pattern succeeds on the path string; the
+          Path overload matches str(path); every configured pattern is compiled as given (rules/c08_match.py)
+  C08.R3  the exclusion test on a path's own value dominates its registration, the descent into it, reading and parsing
+          (rules/c08_scan.py)
+  C08.R4  option plumbing: every glob is converted, regex patterns are passed on unchanged, None never reaches the scan
+          (rules/c08_plumb.py)
+
+Anchors are roles, not private names: the scan is the class that lists directories and calls ast.parse; the predicate is the
+regex-applying method the scan calls; the filter's pattern collection, the Config field and the converter are found by following
+the data from the public entry point `get_evaluable_architecture(exclusions=, regex_exclusions=)`.
 """
 
 from __future__ import annotations
@@ -12,230 +20,126 @@ from __future__ import annotations
 import ast
 
 from core.flow import Flow, Spec
-from core.fold import fold
-from core.guards import atom, equivalent, f_not, implies
-from core.loader import AnalysisError, FuncInfo, Repo, calls_in, header, norm, own_nodes, parent
+from core.loader import AnalysisError, FuncInfo, Repo, calls_in, norm
 from core.report import Result
 
-from . import scan
-from .common import cfg_of, conds, dotted, guard_formula, is_attr_call, stmt_of, truth, types_of, where
+from . import c08_glob, c08_match, c08_plumb, c08_scan
+from .common import reachable_funcs, types_of, where
 
-CONV = "pytestarch.utils.partial_match_to_regex_converter"
-FILTER = "pytestarch.eval_structure_generation.file_import.file_filter"
-ENTRY = "pytestarch.pytestarch"
+CONV_MOD, CONV_FN = "pytestarch.utils.partial_match_to_regex_converter", "convert_partial_match_to_regex"
 
 
 def run(repo: Repo) -> Result:
     res = Result("C08")
     res.explanation = (
-        "Decides the exclusion mechanism structurally: (R1) in the glob-to-regex conversion the user's text reaches the result only through "
-        "re.escape of the slice that strips at most one leading and one trailing '*', with '.*' / '$' placed according to the 4-row table; (R2) "
-        "a path is excluded iff re.match of some compiled pattern succeeds on its string; (R3) directories are registered/descended and files "
-        "registered/read/parsed only after the exclusion test on their own path; (R4) every glob is converted and the pattern tuple handed to "
-        "the scan is never None."
+        "Decides the exclusion mechanism structurally: (R1) the glob-to-regex conversion is evaluated symbolically for the seven glob shapes "
+        "('', '*', '**', text, *text, text*, *text* with an opaque text) and must yield ['.*'] + re.escape(text) + ['.*' | '$']; the user's text reaches "
+        "the result only through re.escape; (R2) the filter's predicate is the term `exists p in <all compiled patterns>: re.match(p, str(path))`; (R3) "
+        "directories are registered/descended and files registered/read/parsed only under the negated exclusion test on their own path (and the "
+        "'.py' test for files), across helper calls and generators; (R4) at the scan's construction the pattern tuple is the converted `exclusions` "
+        "when given, else `regex_exclusions` unchanged or (), and never None."
     )
-    res.not_decided = "the relation 'filtered scan = unfiltered scan minus the matches' on all trees (relates two scans)."
-    res.trusted_base = ["re.escape escapes every regex metacharacter", "engine flow analysis / constant folding"]
+    res.not_decided = "the relation 'filtered scan = unfiltered scan minus the matches' on all trees (relates two scans); the semantics of re.match / re.escape themselves."
+    res.trusted_base = ["re.escape escapes every regex metacharacter", "re.match anchors at the start only", "engine flow analysis / symbolic string evaluator (rules/c08_streval.py)"]
     T = types_of(repo)
-    conv = repo.func(CONV, "convert_partial_match_to_regex")
-    p = conv.param_names[0]
-    # ---- R1 flow
+    # ---- anchors + R3
+    anchors = c08_scan.discover(repo)
+    n3 = _guarded(res, "C08.R3", lambda: c08_scan.run(repo, res, "C08.R3", anchors), 0)
+    res.floor("C08.R3", 4, n3)
+    # ---- R2
+    info = {"config_cls": None, "field": None}
+    if anchors.filter_cls is not None and (anchors.pred_methods or anchors.pred_names):
+        for pred in sorted(anchors.pred_methods or anchors.pred_names):
+            got = _guarded(res, "C08.R2", lambda pred=pred: c08_match.run(repo, res, "C08.R2", anchors.filter_cls, pred), {})
+            if got.get("config_cls") is not None or got.get("field"):
+                info = got
+    else:
+        res.undecide("C08.R2", f"{anchors.entry.relpath}::{anchors.entry.qualname}", "the class of the exclusion predicate could not be identified from the scan", where(anchors.entry, anchors.entry.node))
+    if anchors.filter_cls is not None and info.get("config_cls") is None:
+        info = {**_config_of(repo, T, anchors.filter_cls), "none_ok": info.get("none_ok")}
+    # ---- R4
+    converters = _guarded(res, "C08.R4", lambda: c08_plumb.run(repo, res, "C08.R4", anchors.scan_cls, anchors.filter_cls, info.get("config_cls"), info.get("field"), bool(info.get("none_ok"))), [])
+    # ---- R1
+    convs: list[FuncInfo] = []
+    for fq in converters:
+        m, _, name = fq.rpartition(".")
+        f = repo.find_func(m, name)
+        if f is not None and f not in convs:
+            convs.append(f)
+    if not convs:
+        f = repo.find_func(CONV_MOD, CONV_FN)
+        if f is None:
+            raise AnalysisError("the glob -> regex converter was found neither through the entry point's data flow nor by its public name")
+        convs.append(f)
+    for conv in convs:
+        _guarded(res, "C08.R1", lambda conv=conv: _r1(repo, res, T, conv), None)
+    return res
+
+
+def _guarded(res: Result, rule: str, fn, default):
+    """A crash inside one rule is an undecided construct of that rule (exit 2 with the reason), not the end of the whole check."""
+    try:
+        return fn()
+    except AnalysisError:
+        raise
+    except RecursionError:
+        res.undecide(rule, f"{rule} (internal)", "the analysis of this rule ran into the recursion limit", "")
+        return default
+    except Exception as e:  # noqa: BLE001
+        import traceback
+
+        tb = traceback.extract_tb(e.__traceback__)[-1]
+        res.undecide(rule, f"{rule} (internal)", f"the analysis of this rule failed on an unexpected code shape: {type(e).__name__}: {e} ({tb.filename.rsplit('/', 1)[-1]}:{tb.lineno})", "")
+        return default
+
+
+def _config_of(repo: Repo, T, filter_cls) -> dict:
+    """Configuration class and field the filter's constructor reads its patterns from (by the constructor's annotation)."""
+    init = repo.lookup_method(filter_cls, "__init__")
+    out = {"config_cls": None, "field": None}
+    if init is None or len(init.param_names) < 2:
+        return out
+    p = init.param_names[1]
+    t = T.param_type(init, p)
+    if t[0] == "cls":
+        out["config_cls"] = repo.classes.get(t[1])
+    reads = {n.attr for n in ast.walk(init.node) if isinstance(n, ast.Attribute) and isinstance(n.value, ast.Name) and n.value.id == p}
+    if len(reads) == 1:
+        out["field"] = next(iter(reads))
+    return out
+
+
+def _r1(repo: Repo, res: Result, T, conv: FuncInfo) -> None:
+    p = conv.param_names[0] if conv.param_names else None
+    base = f"{conv.relpath}::{conv.qualname}"
+    if p is None:
+        res.undecide("C08.R1", base, "the converter has no parameter", where(conv, conv.node))
+        return
+    # flow: raw text only through re.escape
+    scope = set(reachable_funcs(repo, [conv], byname=False))
+
     def transfer(f: FuncInfo, call: ast.Call, names, args, recv, kwargs):
         if (repo.resolve_name(f.module, call.func) if isinstance(call.func, (ast.Name, ast.Attribute)) else "") == "re.escape":
             return {"ESC"}
-        if isinstance(call.func, ast.Attribute) and call.func.attr in ("startswith", "endswith"):
+        if isinstance(call.func, ast.Attribute) and call.func.attr in ("startswith", "endswith", "count", "find", "index", "isalnum", "isidentifier"):
             return set()
         return None
 
-    flow = Flow(repo, T, Spec(transfer=transfer, param_seeds={(conv.fq, p): {"RAW"}}, scope=lambda f: f is conv))
+    cases = c08_glob.check_converter(repo, conv)
+    proved_all = all(c.status == "proved" for c in cases)
+    flow = Flow(repo, T, Spec(transfer=transfer, param_seeds={(conv.fq, p): {"RAW"}}, scope=lambda f: f in scope))
     tags = set(flow.ret_tags.get(conv.fq, ()))
-    ok = tags == {"ESC"}
-    res.add("C08.R1", f"{conv.relpath}::{conv.qualname}::pattern text only through re.escape", ok, "the returned regex contains the user's text only in escaped form" if ok else f"the returned regex derives from {sorted(tags)}: un-escaped pattern text (regex metacharacters in file names change what is excluded)", where(conv, conv.node), kind="flow")
-    esc = [c for c in calls_in(conv.node) if repo.resolve_name(conv.module, c.func) == "re.escape"]
-    if len(esc) != 1:
-        if tags == {"ESC"}:
-            raise AnalysisError("convert_partial_match_to_regex: exactly one re.escape call expected")
-        res.add("C08.R1", f"{conv.relpath}::{conv.qualname}::re.escape", False, f"{len(esc)} re.escape call(s) in the conversion: the pattern text is not escaped exactly once", where(conv, conv.node), kind="structural")
-        return _rest(repo, res, T, conv)
-    arg = esc[0].args[0]
-    src = arg
-    if isinstance(arg, ast.Name):
-        a = [s for s in own_nodes(conv.node) if isinstance(s, ast.Assign) and dotted(s.targets[0]) == arg.id]
-        src = a[0].value if len(a) == 1 else arg
-    # flags
-    flags = {}
-    for s in own_nodes(conv.node):
-        if isinstance(s, ast.Assign) and isinstance(s.value, ast.Call) and isinstance(s.value.func, ast.Attribute) and s.value.func.attr in ("startswith", "endswith") and dotted(s.value.func.value) == p:
-            marker = fold(repo, conv.module, s.value.args[0], conv)
-            flags[dotted(s.targets[0])] = (s.value.func.attr, marker)
-    start_flag = next((k for k, v in flags.items() if v == ("startswith", "*")), None)
-    end_flag = next((k for k, v in flags.items() if v == ("endswith", "*")), None)
-    ok = False
-    detail = "the text handed to re.escape is not a recognised 'strip at most one marker per side' expression"
-    strip_call = [c for c in ast.walk(src) if isinstance(c, ast.Call) and isinstance(c.func, ast.Attribute) and c.func.attr in ("strip", "lstrip", "rstrip")]
-    if strip_call:
-        detail = f"`{norm(src, 60)}` strips *every* leading/trailing marker: a literal '*' next to the wildcard is swallowed ('**gen.py' also excludes 'codegen.py')"
-    elif isinstance(src, ast.Subscript) and isinstance(src.slice, ast.Slice) and dotted(src.value) == p and start_flag and end_flag:
-        lo, up = src.slice.lower, src.slice.upper
-
-        def resolve(e):
-            if isinstance(e, ast.Name):
-                a = [s for s in own_nodes(conv.node) if isinstance(s, ast.Assign) and dotted(s.targets[0]) == e.id]
-                return a[0].value if len(a) == 1 else e
-            return e
-
-        lo, up = resolve(lo), resolve(up)
-        lo_ok = isinstance(lo, ast.IfExp) and dotted(lo.test) == start_flag and norm(lo.body) == "1" and norm(lo.orelse) == "0"
-        lenv = None
-        for s in own_nodes(conv.node):
-            if isinstance(s, ast.Assign) and norm(s.value) == f"len({p})":
-                lenv = dotted(s.targets[0])
-        L = [f"len({p})"] + ([lenv] if lenv else [])
-        up_ok = isinstance(up, ast.IfExp) and dotted(up.test) == end_flag and any(norm(up.body) == f"{l} - 1" for l in L) and any(norm(up.orelse) == l for l in L)
-        ok = lo_ok and up_ok and src.slice.step is None
-        detail = "exactly one leading and one trailing marker are stripped, everything else is escaped literally" if ok else f"the escaped slice is `{norm(src, 80)}` with bounds `{norm(lo, 40) if lo else None}` / `{norm(up, 40) if up else None}`: not 'drop one leading marker iff present, one trailing marker iff present'"
-    elif isinstance(src, ast.Call) and isinstance(src.func, ast.Attribute) and src.func.attr in ("removeprefix", "removesuffix"):
-        inner = src.func.value
-        ok = isinstance(inner, ast.Call) and isinstance(inner.func, ast.Attribute) and {src.func.attr, inner.func.attr} == {"removeprefix", "removesuffix"} and dotted(inner.func.value) == p
-        detail = "one leading and one trailing marker removed via removeprefix/removesuffix" if ok else detail
-    res.add("C08.R1", repo.key(conv, stmt_of(esc[0])) + " [escaped text]", ok, detail, where(conv, esc[0]), kind="structural")
-    # table: where the regex markers are placed
-    resv = dotted(stmt_of(esc[0]).targets[0]) if isinstance(stmt_of(esc[0]), ast.Assign) else None
-    placements = []
-    for s in own_nodes(conv.node):
-        if isinstance(s, ast.Assign) and dotted(s.targets[0]) == resv and isinstance(s.value, ast.JoinedStr):
-            parts = s.value.values
-            texts = []
-            for v in parts:
-                if isinstance(v, ast.Constant):
-                    texts.append(("const", str(v.value)))
-                elif isinstance(v, ast.FormattedValue):
-                    if dotted(v.value) == resv:
-                        texts.append(("self", ""))
-                    else:
-                        texts.append(("const", fold(repo, conv.module, v.value, conv) or "?"))
-            if [k for k, _ in texts].count("self") != 1:
-                raise AnalysisError(f"convert_partial_match_to_regex: `{header(s)}` not recognised")
-            i = [k for k, _ in texts].index("self")
-            pre = "".join(t for k, t in texts[:i])
-            post = "".join(t for k, t in texts[i + 1 :])
-            placements.append((s, pre, post))
-    if not start_flag or not end_flag:
-        raise AnalysisError("convert_partial_match_to_regex: startswith/endswith marker tests not found")
-    want = {("prefix", ".*"): truth(conv, start_flag), ("suffix", ".*"): truth(conv, end_flag), ("suffix", "$"): f_not(truth(conv, end_flag))}
-    seen = set()
-    for s, pre, post in placements:
-        for side, text in (("prefix", pre), ("suffix", post)):
-            if not text:
-                continue
-            key = (side, text)
-            seen.add(key)
-            g = guard_formula(conv, s)
-            ok = key in want and equivalent(g, want[key])
-            res.add("C08.R1", repo.key(conv, s) + f" [{side} {text!r}]", ok, f"{text!r} is {'prepended' if side == 'prefix' else 'appended'} exactly when required" if ok else f"{text!r} is {'prepended' if side == 'prefix' else 'appended'} under `{' and '.join(('' if pol else 'not ') + norm(e) for e, pol in conds(conv, s)) or 'no condition'}`: not the documented glob meaning", where(conv, s), kind="decision-table")
-    for key in want:
-        if key not in seen:
-            res.add("C08.R1", f"{conv.relpath}::{conv.qualname}::{key[0]} {key[1]!r}", False, f"{key[1]!r} is never {'prepended' if key[0] == 'prefix' else 'appended'}: " + ("a pattern without trailing * also matches longer paths" if key[1] == "$" else "the * wildcard is not translated"), where(conv, conv.node), kind="decision-table")
-    rets = [s for s in own_nodes(conv.node) if isinstance(s, ast.Return)]
-    ok = len(rets) == 1 and dotted(rets[0].value) == resv
-    res.add("C08.R1", f"{conv.relpath}::{conv.qualname}::returns the assembled regex", ok, "the assembled regex is returned" if ok else "the function does not return the assembled regex", where(conv, conv.node), nontrivial=False)
-    return _rest(repo, res, T, conv)
-
-
-def _rest(repo: Repo, res: Result, T, conv: FuncInfo) -> Result:
-    # ---- R2
-    ff = repo.cls(FILTER, "FileFilter")
-    impls = [m for m in [*ff.methods.values(), *ff.extra_methods] if m.name in ("_", "is_excluded")]
-    str_impl = None
-    path_impl = None
-    for m in impls:
-        ann = norm(m.params[1].annotation) if len(m.params) > 1 and m.params[1].annotation is not None else ""
-        regs = [d for d in m.decorators if d.endswith(".register")]
-        if not regs:
+    ok = "RAW" not in tags or proved_all  # the symbolic proof for every glob shape shows the text only inside re.escape(...)
+    res.add("C08.R1", f"{base}::pattern text only through re.escape", ok, ("the returned regex contains the user's text only in escaped form" + ("" if "RAW" not in tags else " (by the symbolic evaluation of all glob shapes; the coarser tag flow alone could not show it)")) if ok else "the returned regex contains un-escaped pattern text: regex metacharacters in file names change what is excluded", where(conv, conv.node), kind="flow")
+    # symbolic evaluation per glob shape
+    proved = 0
+    for c in cases:
+        key = f"{base}::glob shape {c.shape}"
+        w = where(conv, c.node if c.node is not None and hasattr(c.node, "lineno") else conv.node)
+        if c.status == "unsupported":
+            res.undecide("C08.R1", key, c.detail, w)
             continue
-        if ann == "str":
-            str_impl = m
-        elif "Path" in ann:
-            path_impl = m
-    if str_impl is None or path_impl is None:
-        raise AnalysisError("FileFilter.is_excluded: str / Path overloads not found")
-    rets = [s for s in own_nodes(str_impl.node) if isinstance(s, ast.Return)]
-    v = rets[0].value if len(rets) == 1 else None
-    ok = False
-    detail = "is_excluded(str) is not `any(re.match(pattern, s) is not None for pattern in <all patterns>)`"
-    if isinstance(v, ast.Call) and dotted(v.func) == "any" and v.args and isinstance(v.args[0], (ast.GeneratorExp, ast.ListComp)):
-        gen = v.args[0]
-        mcalls = [c for c in ast.walk(gen.elt) if isinstance(c, ast.Call) and (repo.resolve_name(str_impl.module, c.func) or "").startswith("re.") or (isinstance(c, ast.Call) and isinstance(c.func, ast.Attribute) and c.func.attr in ("match", "search", "fullmatch"))]
-        if len(mcalls) == 1:
-            mc = mcalls[0]
-            name = repo.resolve_name(str_impl.module, mc.func) or (mc.func.attr if isinstance(mc.func, ast.Attribute) else "")
-            is_match = name in ("re.match",) or (isinstance(mc.func, ast.Attribute) and mc.func.attr == "match" and dotted(mc.func.value) == dotted(gen.generators[0].target))
-            subj = mc.args[-1] if mc.args else None
-            ok = is_match and len(gen.generators) == 1 and not gen.generators[0].ifs and dotted(gen.generators[0].iter) == "self._excluded_directories" and subj is not None and dotted(subj) == str_impl.param_names[1]
-            test_ok = isinstance(gen.elt, ast.Compare) and isinstance(gen.elt.ops[0], ast.IsNot) or gen.elt is mc
-            ok = ok and test_ok
-            if ok:
-                detail = "excluded iff re.match (start-anchored) of any compiled pattern succeeds on the string"
-            elif not is_match:
-                detail = f"patterns are applied with {name} instead of re.match: regex exclusions are no longer anchored at the start of the path"
-    res.add("C08.R2", f"{str_impl.relpath}::FileFilter.is_excluded(str)::re.match of every pattern", ok, detail, where(str_impl, str_impl.node), kind="structural")
-    rets = [s for s in own_nodes(path_impl.node) if isinstance(s, ast.Return)]
-    ok = len(rets) == 1 and isinstance(rets[0].value, ast.Call) and is_attr_call(rets[0].value, "is_excluded")
-    if ok:
-        a = rets[0].value.args[0]
-        srcs = [a]
-        if isinstance(a, ast.Name):
-            srcs = [s.value for s in own_nodes(path_impl.node) if isinstance(s, ast.Assign) and dotted(s.targets[0]) == a.id]
-        ok = len(srcs) == 1 and isinstance(srcs[0], ast.Call) and dotted(srcs[0].func) == "str" and dotted(srcs[0].args[0]) == path_impl.param_names[1]
-    res.add("C08.R2", f"{path_impl.relpath}::FileFilter.is_excluded(Path)::delegates with str(path)", ok, "a Path is matched through its full string" if ok else "the Path overload does not delegate with str(path) (e.g. only a component of the path is matched)", where(path_impl, path_impl.node), kind="flow")
-    init = ff.methods.get("__init__")
-    comp = [n_ for n_ in own_nodes(init.node) if isinstance(n_, ast.ListComp)]
-    ok = len(comp) == 1 and not comp[0].generators[0].ifs and norm(comp[0].generators[0].iter).endswith("excluded_directories") and isinstance(comp[0].elt, ast.Call) and repo.resolve_name(init.module, comp[0].elt.func) == "re.compile" and len(comp[0].elt.args) == 1 and not comp[0].elt.keywords
-    res.add("C08.R2", f"{init.relpath}::{init.qualname}::all patterns compiled, no flags", ok, "every configured pattern is compiled as given" if ok else "not every configured pattern is compiled as given (filtered, or compiled with flags)", where(init, init.node), kind="structural")
-    # ---- R3
-    n = scan.run_registration(repo, res, "C08.R3")
-    res.floor("C08.R3", 7, n)
-    # ---- R4
-    ge = repo.func(ENTRY, "get_evaluable_architecture")
-    for glob_p, regex_p in (("exclusions", "regex_exclusions"), ("external_exclusions", "regex_external_exclusions")):
-        asg = [s for s in own_nodes(ge.node) if isinstance(s, ast.Assign) and dotted(s.targets[0]) == regex_p and any(isinstance(c, ast.Call) and dotted(c.func) == conv.name for c in ast.walk(s.value))]
-        ok = False
-        if len(asg) == 1:
-            v = asg[0].value
-            gen = v.args[0] if isinstance(v, ast.Call) and dotted(v.func) in ("tuple", "list") and v.args else v
-            ok = isinstance(gen, (ast.GeneratorExp, ast.ListComp)) and len(gen.generators) == 1 and not gen.generators[0].ifs and dotted(gen.generators[0].iter) == glob_p and isinstance(gen.elt, ast.Call) and dotted(gen.elt.func) == conv.name and dotted(gen.elt.args[0]) == dotted(gen.generators[0].target)
-            ok = ok and implies(guard_formula(ge, asg[0]), atom(f"bool({glob_p})"))
-        res.add("C08.R4", f"{ge.relpath}::{ge.qualname}::{glob_p} all converted", ok, f"every element of `{glob_p}` is converted" if ok else f"not every element of `{glob_p}` is converted into a regex pattern", where(ge, ge.node), kind="structural")
-    gen_call = [c for c in calls_in(ge.node) if dotted(c.func) == "generate_graph"]
-    if len(gen_call) != 1:
-        raise AnalysisError("get_evaluable_architecture: generate_graph call not found")
-    callee = repo.func("pytestarch.eval_structure_generation.graph_generation.graph_generator", "generate_graph")
-    for i, a in enumerate(gen_call[0].args):
-        if not isinstance(a, ast.Name) or a.id not in ge.param_names:
-            continue
-        par = next(x for x in ge.params if x.arg == a.id)
-        optional = par.annotation is not None and "None" in norm(par.annotation)
-        if not optional:
-            continue
-        cp = callee.params[i] if i < len(callee.params) else None
-        callee_optional = cp is not None and cp.annotation is not None and "None" in norm(cp.annotation)
-        if callee_optional:
-            res.add("C08.R4", f"{ge.relpath}::{ge.qualname}::{a.id} may be None (callee accepts None)", True, f"`{cp.arg}` of generate_graph is Optional and normalised there", where(ge, gen_call[0]), nontrivial=False)
-            continue
-        # must be normalised on every path before the call
-        norm_stmts = []
-        for s in ge.body:
-            if isinstance(s, ast.If) and norm(s.test) == f"{a.id} is None" and any(isinstance(x, ast.Assign) and dotted(x.targets[0]) == a.id and not (isinstance(x.value, ast.Constant) and x.value.value is None) for x in s.body):
-                norm_stmts.append(s)
-            if isinstance(s, ast.Assign) and dotted(s.targets[0]) == a.id and isinstance(s.value, ast.BoolOp) and isinstance(s.value.op, ast.Or):
-                norm_stmts.append(s)
-        ok = any(cfg_of(ge).dominates(s, stmt_of(gen_call[0])) for s in norm_stmts)
-        res.add(
-            "C08.R4",
-            f"{ge.relpath}::{ge.qualname}::{a.id} never None at the scan",
-            ok,
-            f"`{a.id}` is replaced by an empty tuple when nothing was configured" if ok else f"`{a.id}` (Optional, default None) reaches `{cp.arg if cp else '?'}: {norm(cp.annotation) if cp is not None and cp.annotation is not None else '?'}` of generate_graph un-normalised: with an empty `exclusions` tuple the scan iterates None",
-            where(ge, gen_call[0]),
-            kind="flow",
-        )
-    return res
+        if c.status == "proved":
+            proved += 1
+        res.add("C08.R1", key, c.status != "refuted", c.detail, w, kind="symbolic-evaluation" if c.status == "proved" else "bounded-evaluation" if c.status == "bounded" else "decision-table")
+    res.extra.setdefault("c08_converter", {})[conv.fq] = {"shapes_proved_for_all_texts": proved, "shapes": len(c08_glob.SHAPES)}
